@@ -205,10 +205,31 @@ def unencapsulate(trees: dict[str, ast.Module]) -> dict[str, list[str]]:
                     # a public new name (the attribute was renamed, the old name
                     # kept as an alias): callers anywhere may use it, so it must
                     # be unambiguous in the package
-                    if any(k not in cone and _defines_or_assigns(c2, y) for k, ds in classes.items() for _, c2 in ds):
-                        continue
-                    cls.body = [st for st in cls.body if st is not g and st is not s] or [ast.Pass()]
-                    touched = _rename_attr(trees, y, x) | {rel}
+                    others = {k for k, ds in classes.items() for _, c2 in ds if k not in cone and _defines_or_assigns(c2, y)}
+                    if others:
+                        # another class has an attribute of that name too (two hierarchies given the same
+                        # backing field by a shared, since pulled-down base): rename inside this hierarchy only,
+                        # provided nobody outside the classes that own such a field touches `.y`
+                        owned = set(cone)
+                        for o in others:
+                            owned |= _cone(classes, o)
+                        inside = {id(n) for k in owned for _, c2 in classes.get(k, []) for n in ast.walk(c2)}
+                        stray = any(
+                            isinstance(n, ast.Attribute) and n.attr == y and id(n) not in inside
+                            for t in trees.values() for n in ast.walk(t)
+                        )
+                        if stray or (owned - set(cone)) & set(cone):
+                            continue
+                        cls.body = [st for st in cls.body if st is not g and st is not s] or [ast.Pass()]
+                        touched = {rel}
+                        for k in cone:
+                            for r2, c2 in classes.get(k, []):
+                                sub = {r2: ast.Module(body=[c2], type_ignores=[])}
+                                if _rename_attr(sub, y, x):
+                                    touched.add(r2)
+                    else:
+                        cls.body = [st for st in cls.body if st is not g and st is not s] or [ast.Pass()]
+                        touched = _rename_attr(trees, y, x) | {rel}
                 for r2 in touched:
                     notes.setdefault(r2, [])
                 notes[rel].append(f"{cname}.{x}: trivial property over `{y}` folded back into the attribute `{x}`")
@@ -410,8 +431,11 @@ def pull_down_new_bases(trees: dict[str, ast.Module]) -> dict[str, list[str]]:
     uniq = {k: v[0] for k, v in classes.items() if len(v) == 1}
     done: set[tuple[str, str]] = set()
 
+    def _bname(b):
+        return ast.unparse(b.value if isinstance(b, ast.Subscript) else b).rsplit(".", 1)[-1]
+
     def base_names(c: ast.ClassDef):
-        return [ast.unparse(b).rsplit(".", 1)[-1] for b in c.bases]
+        return [_bname(b) for b in c.bases]
 
     def pull(cname: str, depth=0):
         if depth > 6 or cname not in uniq:
@@ -487,8 +511,10 @@ def pull_down_new_bases(trees: dict[str, ast.Module]) -> dict[str, list[str]]:
             # the base is replaced by its own bases
             new_bases = []
             for be in c.bases:
-                if ast.unparse(be).rsplit(".", 1)[-1] == bname:
+                if _bname(be) == bname:
                     for bb in b.bases:
+                        if _bname(bb) in ("Generic", "Protocol"):
+                            continue  # the type parameters of the extracted base mean nothing in the subclass
                         if ast.unparse(bb) not in ("object",) and ast.unparse(bb) not in [ast.unparse(x) for x in new_bases + c.bases]:
                             new_bases.append(_copy.deepcopy(bb))
                             for n in ast.walk(bb):
